@@ -604,7 +604,8 @@ where
                 .collect::<Vec<_>>();
             for module in mods {
                 // Use cloned handles to appease the brwchk
-                if stage < module.num_sim_start_stages() {
+                // A module that shut down or panicked in an earlier stage is skipped
+                if stage < module.num_sim_start_stages() && module.is_active() {
                     module.activate();
 
                     #[cfg(feature = "tracing")]
